@@ -79,6 +79,11 @@ DecodeOK(e) ==
     /\ \A i \in 1..Len(e.entry) : e.entry[i] = e.bits             \* EntryPointsAgree
     /\ e.exact => EOTFHolds(CurveOf(e.space), FromInt(e.code), N, e.ylo, e.yhi, Tol3e7)
 
+\* Lazy initialisation is unobservable: whichever public entry point is the first call a process
+\* makes into the library, it returns what it returns later, and what the per-component
+\* functions give for the same values; it does not panic.
+FirstUseOK(e) == ~e.panic /\ e.first = e.again /\ e.first = e.ref /\ Len(e.first) > 0
+
 \* LineariseColor re-quantises to 16 bits: out/65535 within 3e-7 + half a 16-bit code
 HalfCode16 == <<349, 948, 510, 629, 7>>          \* ceil(10^18 / 131070) = 7629510948349
 LineariseOK(e) ==
